@@ -48,9 +48,9 @@ def gen_tree(r, depth=0):
         elif kind == "float":
             d[k] = float(r.normal())
         elif kind == "str":
-            d[k] = str(r.choice(["logit", "zuko", "cpu", "", "a.b", "None"]))
+            d[k] = str(r.choice(["logit", "zuko", "cpu", "", "a.b", "None", "\u03c3-clip"]))
         elif kind == "strs":
-            d[k] = [str(v) for v in r.choice(["m1", "m2", "chirp", "x"], int(r.integers(1, 4)))]
+            d[k] = [str(v) for v in r.choice(["m1", "m2", "chirp", "x", "\u03b8_jn", "\u0394m"], int(r.integers(1, 4)))]
         elif kind == "nums":
             d[k] = [float(v) for v in r.normal(size=int(r.integers(1, 4)))] if r.random() < 0.5 else tuple(float(v) for v in r.normal(size=2))
         elif kind == "npscalar":
@@ -95,6 +95,11 @@ def canon(v):
         return float(v)
     if isinstance(v, (list, tuple)) and all(isinstance(x, str) for x in v):
         return [str(x) for x in v]
+    if isinstance(v, bytes):
+        return ("bytes", v)                       # a string that came back undecoded is NOT observationally a string
+    a = np.asarray(v)
+    if a.dtype.kind in "SOU":
+        return ("undecoded-array", tuple(x if isinstance(x, str) else ("bytes", bytes(x)) for x in a.reshape(-1).tolist()))
     return tuple(float(x) for x in np.asarray(v, dtype=float).reshape(-1))
 
 
@@ -177,9 +182,10 @@ def check_samples(chk, r, tmp, quick):
 
     from aspire.samples import BaseSamples, Samples, SMCSamples
 
-    names_sets = [["a", "b"], ["mass", "distance", "chirp"], [f"x_{i}" for i in range(12)]]
+    # parameter names as users write them: short, non-alphabetical, more than ten generated ones, and non-ASCII (Greek letters, \u0394m)
+    names_sets = [["a", "b"], ["mass", "distance", "chirp"], [f"x_{i}" for i in range(12)], ["\u03b1", "mass", "\u0394m_21"]]
     combos = [(K, n, w, flds, flat, nm) for K in (BaseSamples, Samples, SMCSamples) for n in NSS for w in ("f32", "f64")
-              for flds in ((), ("log_likelihood",), ("log_likelihood", "log_prior", "log_q")) for flat in (False, True) for nm in range(3)]
+              for flds in ((), ("log_likelihood",), ("log_likelihood", "log_prior", "log_q")) for flat in (False, True) for nm in range(4)]
     if quick:
         idx = r.permutation(len(combos))[:110]
         combos = [combos[i] for i in sorted(idx)]
@@ -321,7 +327,9 @@ def check_flows(chk, tmp, quick):
     from aspire.flows import get_flow_wrapper
 
     data = np.random.default_rng(3).normal(0.2, 0.6, (80, 2))
-    specs = [("zuko", {}), ("zuko", {"hidden_features": [16, 16], "transforms": 2}), ("flowjax", {}), ("flowjax", {"nn_depth": 1, "nn_width": 8})]
+    specs = [("zuko", {}), ("zuko", {"hidden_features": [16, 16], "transforms": 2}), ("flowjax", {}), ("flowjax", {"nn_depth": 1, "nn_width": 8}),
+             # options holding a nested dictionary of Python scalars (a float that must come back as a float)
+             ("flowjax", {"bijection_type": "RationalQuadraticSpline", "bijection_kwargs": {"knots": 4, "interval": 4.0}, "nn_width": 8, "flow_layers": 2})]
     if quick:
         specs = specs[:3] + specs[3:]
     for backend, opts in specs:
@@ -341,7 +349,7 @@ def check_flows(chk, tmp, quick):
                 f.fit(data, max_epochs=1)
             with torch.no_grad():
                 ref = ns.to_np(f.log_prob(data[:10]))
-            p = os.path.join(tmp, f"flow_{backend}_{len(opts)}.h5")
+            p = os.path.join(tmp, f"flow_{backend}_{len(opts)}_{abs(hash(json.dumps(opts, sort_keys=True))) % 10**6}.h5")
             with h5py.File(p, "w") as h:
                 f.save(h, "flow")
             with h5py.File(p, "r") as h:
